@@ -82,11 +82,22 @@ where
     S: Selector<Pop>,
     S::Error: KindOf,
 {
-    let first = observe_select(s, pop, pop, env, alpha);
+    // exactly one member is asked, and it is the one whose individual comes back
+    let one = |env: &mut mcx::Env| -> SelObs {
+        let _ = take_marker_calls();
+        let o = observe_select(s, pop, pop, env, alpha);
+        let calls = take_marker_calls();
+        match &o {
+            SelObs::Idx(i) if calls != vec![*i] => SelObs::Panic(format!("delegation: the selection returned member {i}'s individual but the members asked to select were {calls:?} (exactly one member is to be used)")),
+            SelObs::Err(ErrKind::ZeroWeight) if !calls.is_empty() => SelObs::Panic(format!("delegation: the zero-weight error was reported after members {calls:?} had been asked to select")),
+            _ => o,
+        }
+    };
+    let first = one(env);
     if !TWICE.with(|t| t.get()) {
         return first;
     }
-    match (first, observe_select(s, pop, pop, env, alpha)) {
+    match (first, one(env)) {
         (SelObs::Idx(a), SelObs::Idx(b)) => SelObs::Idx(16 * a + b),
         (SelObs::Idx(_), other) | (other, _) => other,
     }
@@ -231,7 +242,8 @@ pub fn case_scaled(s: Shape, v: &[u32], unit: u32) -> (u64, u64, Option<(String,
         return (st.leaves, st.choice_points, None, 1);
     }
     if !errs.mass.is_empty() {
-        return (st.leaves, st.choice_points, Some((format!("weighted/error/{s:?}"), format!("{label}: unexpected results {}", errs.render()))), 0);
+        let kind = if errs.mass.keys().any(|k| k.contains("delegation:")) { "delegation" } else { "error" };
+        return (st.leaves, st.choice_points, Some((format!("weighted/{kind}/{s:?}"), format!("{label}: unexpected results {}", errs.render()))), 0);
     }
     let mut want: Law<usize> = Law::new();
     for (i, x) in w.iter().enumerate() {
